@@ -212,6 +212,8 @@ pub fn witness_fails(runner: &mut Runner, f: &Finding) -> Option<bool> {
         None => vec![source],
     };
     let gc: Option<proto::GcSpec> = w.get("gc").and_then(|g| serde_json::from_value(g.clone()).ok());
+    // optional: run on a thread with this stack size (KiB); "runner": "release" selects the optimised runner
+    let stack_kb: Option<usize> = w.get("stack_kb").and_then(|x| x.as_u64()).map(|x| x as usize);
     let mut req = proto::Request {
         op: "run".into(),
         snippets,
@@ -219,8 +221,12 @@ pub fn witness_fails(runner: &mut Runner, f: &Finding) -> Option<bool> {
         fuel: Some(5_000_000),
         gc,
         want: vec!["uaf".into()],
+        stack_kb,
         ..Default::default()
     };
+    if stack_kb.is_some() {
+        req.fuel = None;
+    }
     let obs = runner.call(&mut req);
     let resp = match &obs {
         Obs::Resp(r) => r,
